@@ -1627,6 +1627,8 @@ class Segments:
         # Mode indicator overhead
         if version > 0:  # QR Code
             overhead += len(self.modes) * 4
+            # Hanzi: 4 bit GB2312 subset indicator
+            overhead += sum(4 for mode in self.modes if mode == consts.MODE_HANZI)
         elif version > consts.VERSION_M1:  # Micro QR Code (M1 has no mode indicator)
             overhead += len(self.modes) * (version + 3)
         # Char count indicator overhead
